@@ -339,3 +339,23 @@ Definition wf_response (r : str) : option Z :=
 Definition S_LOCALHOST : str := [108;111;99;97;108;104;111;115;116].
 Definition S_LOOPBACK : str := [49;50;55;46;48;46;48;46;49].
 Definition is_local (host : str) : bool := str_eqb host S_LOCALHOST || str_eqb host S_LOOPBACK.
+
+(* ---------- what a GET asks for and what it is shown ---------- *)
+(* the parameters a GET request line asks for (None: not a GET request line) *)
+Definition spec_get_request (line : str) : option (Z * Z) := option_map get_params (get_match line).
+
+(* the part of a list (matches, or selected items) a GET with these parameters is shown:
+   at most `limit` entries starting at position `offset` (positions count from 0) *)
+Definition spec_window {A} (items : list A) (limit offset : Z) : list A :=
+  firstn (Z.to_nat limit) (skipn (Z.to_nat offset) items).
+
+(* the body of an answer: what follows the blank line *)
+Definition response_body (r : str) : option str :=
+  match cut_line r with
+  | None => None
+  | Some (_, rest) =>
+      match resp_headers (length rest) rest None with
+      | Some (_, body) => Some body
+      | None => None
+      end
+  end.
